@@ -75,6 +75,7 @@ func iaEqPats(field string) []string {
 
 func runC05(c *Ctx) {
 	procStateFresh(c, "S1-per-packet-state")
+	peeringKnownBeforeUse(c, "O1-peering-known-before-use")
 	c05IngressInterface(c)
 	pp := "4:router.slowPathType" // slowPathType(SCMPTypeParameterProblem)
 	invSrc := c.Const("pkg/slayers.SCMPCodeInvalidSourceAddress")
